@@ -97,6 +97,7 @@ type Ctx struct {
 	bound   map[string]bool // names of quantifier-bound variables
 	qinst   map[string][]*qTemplate // quantified assumptions indexed by the array they read
 	qdone   map[string]bool
+	defOf   map[string]string // define-fun name -> its term
 	axiomLine map[int]bool // indices of lines that are global axioms (included in a query only when relevant)
 	pending []Term // definitional facts to be asserted (they may mention bound variables' skolems)
 }
@@ -106,7 +107,7 @@ func NewCtx() *Ctx {
 		faSeen: map[string]bool{}, faIDs: map[string]int{}, faDecl: map[string]bool{},
 		memDecl: map[string]bool{}, typeIDs: map[string]int{}, funDecl: map[string]bool{},
 		trusted: map[string]bool{}, dropped: map[string]bool{}, ifaceTags: map[string]int{}, axiomLine: map[int]bool{},
-		bound: map[string]bool{}, qinst: map[string][]*qTemplate{}, qdone: map[string]bool{},
+		bound: map[string]bool{}, qinst: map[string][]*qTemplate{}, qdone: map[string]bool{}, defOf: map[string]string{},
 	}
 	c.lines = append(c.lines,
 		"(declare-sort Iface 0)",
@@ -179,7 +180,21 @@ func (c *Ctx) define(hint, sort string, t Term) Term {
 	}
 	n := c.fresh(hint)
 	c.emit(fmt.Sprintf("(define-fun %s () %s %s)", n, sort, t))
+	c.defOf[n] = t
 	return n
+}
+
+// canonArr expands a defined name to the term it abbreviates, so that a
+// quantified assumption and a later read agree on the key of the array.
+func (c *Ctx) canonArr(a Term) Term {
+	for i := 0; i < 8; i++ {
+		d, ok := c.defOf[a]
+		if !ok {
+			break
+		}
+		a = d
+	}
+	return a
 }
 
 func (c *Ctx) assume(t Term) {
@@ -265,7 +280,7 @@ func (c *Ctx) registerQuant(t Term) {
 						return idx[e-1] == v
 					})()
 					if direct || viaAdd {
-						arr := joinSexpr(body[aS : aE+1])
+						arr := c.canonArr(joinSexpr(body[aS : aE+1]))
 						tpl := &qTemplate{guards: guards, v: v, body: body}
 						c.qinst[arr] = append(c.qinst[arr], tpl)
 					}
@@ -279,7 +294,7 @@ func (c *Ctx) registerQuant(t Term) {
 // instantiateAt emits the instances of the registered quantified assumptions
 // that read array arr, for the ground index term idx.
 func (c *Ctx) instantiateAt(arr Term, idx Term) {
-	tpls := c.qinst[arr]
+	tpls := c.qinst[c.canonArr(arr)]
 	if len(tpls) == 0 {
 		return
 	}
